@@ -6,6 +6,11 @@ use crate::tm::*;
 use slotted_egraphs::*;
 use std::collections::{BTreeMap, HashMap};
 
+/// The summation binder ranges over {0, .., SUM_RANGE-1}, a proper subset of the field: a sum over
+/// the whole field annihilates every polynomial of degree below p-1, which would make almost every
+/// wrong rewrite under a summation model-valid.
+pub const SUM_RANGE: u32 = 2;
+
 pub fn cst_value(c: u32, p: u32) -> u32 {
     (crate::rng::mix(c as u64 ^ 0xC57) % p as u64) as u32
 }
@@ -23,7 +28,7 @@ pub fn eval_tm(t: &Tm, env: &BTreeMap<S, u32>, p: u32) -> u32 {
             let x = t.kids[0].binders[0];
             let mut e = env.clone();
             let mut acc = 0;
-            for v in 0..p {
+            for v in 0..SUM_RANGE {
                 e.insert(x, v);
                 acc = (acc + eval_tm(&t.kids[0].t, &e, p)) % p;
             }
@@ -34,7 +39,7 @@ pub fn eval_tm(t: &Tm, env: &BTreeMap<S, u32>, p: u32) -> u32 {
             let x = t.kids[1].binders[0];
             let mut e = env.clone();
             let mut acc = 0;
-            for v in 0..p {
+            for v in 0..SUM_RANGE {
                 e.insert(x, v);
                 acc = (acc + eval_tm(&t.kids[1].t, &e, p)) % p;
             }
@@ -132,7 +137,7 @@ pub fn eval_node(n: &LA, env: &HashMap<Slot, u32>, redundant: &dyn Fn(Slot) -> u
         LA::Neg(a) => (p - child(a, &[])?) % p,
         LA::Sum(b) => {
             let mut acc = 0;
-            for v in 0..p {
+            for v in 0..SUM_RANGE {
                 acc = (acc + child(&b.elem, &[(b.slot, v)])?) % p;
             }
             acc
@@ -140,7 +145,7 @@ pub fn eval_node(n: &LA, env: &HashMap<Slot, u32>, redundant: &dyn Fn(Slot) -> u
         LA::Sumr(r, b) => {
             let rv = child(r, &[])?;
             let mut acc = 0;
-            for v in 0..p {
+            for v in 0..SUM_RANGE {
                 acc = (acc + child(&b.elem, &[(b.slot, v)])?) % p;
             }
             (rv * acc) % p
